@@ -59,3 +59,90 @@ Example C14_nonvacuous :
   | _, _ => false
   end = true.
 Proof. vm_compute. reflexivity. Qed.
+
+From NurbsV Require Import Spec.BSpline Proofs.Local Proofs.CleanProofs.
+(* ---- the clean loop (Proofs/CleanProofs.v): it ends because a further removal is REFUSED, never because its fuel ran out (the fuel the
+   library's loop has is always enough); counts of other knots are untouched and the vector stays well-formed; a copy that is exactly
+   removable (some coarser coefficient list gives the same function) is removed, exactly; consequently knot_clean UNDOES k insertions of
+   a knot: it passes through a state that is the original curve (vector and control points up to ==) and every inserted copy is gone.
+   `certs` is the chain of linear solves the loop performs (a certificate of the model's Gauss-Jordan, checkable by vm_compute). ---- *)
+Theorem C14_loop_stops_only_at_refusal :
+  forall (c : curve) (x : Q) (tol : option Q),
+       exists e : exn, c_knot_remove (remove_while (length (kvec (ckv c))) c x tol) [x] tol = Err e.
+Proof. exact remove_while_length_refused. Qed.
+Print Assumptions C14_loop_stops_only_at_refusal.
+
+Theorem C14_loop_counts :
+  forall (fuel : nat) (c : curve) (x : Q) (tol : option Q),
+       exists j : nat,
+         (j <= fuel)%nat /\
+         length (kvec (ckv c)) = (length (kvec (ckv (remove_while fuel c x tol))) + j)%nat /\
+         (forall z : Q,
+          count_q z (kvec (ckv c)) =
+          (count_q z (kvec (ckv (remove_while fuel c x tol))) + (if Qeqb z x then j else 0))%nat).
+Proof. exact remove_while_counts. Qed.
+Print Assumptions C14_loop_counts.
+
+Theorem C14_loop_keeps_wellformed :
+  forall (fuel : nat) (c : curve) (x : Q) (tol : option Q),
+       WF (kvec (ckv c)) (kdeg (ckv c)) ->
+       WF (kvec (ckv (remove_while fuel c x tol))) (kdeg (ckv (remove_while fuel c x tol))).
+Proof. exact remove_while_wf. Qed.
+Print Assumptions C14_loop_keeps_wellformed.
+
+Theorem C14_knot_clean_result_admits_no_removal :
+  forall (c : curve) (x tol : Q) (r : curve),
+       c_knot_clean c (Some [x]) tol = Ok r ->
+       r = c /\ (x == kumin (ckv c) \/ x == kumax (ckv c)) \/
+       r = remove_while (length (kvec (ckv c))) c x (Some tol) /\
+       (exists e : exn, c_knot_remove r [x] (Some tol) = Err e).
+Proof. exact knot_clean_single_refused. Qed.
+Print Assumptions C14_knot_clean_result_admits_no_removal.
+
+Theorem C14_removable_copy_is_removed_exactly :
+  forall (c1 : curve) (P1 : list pt) (d : nat) (x : Q) (knew : kv) (Q0 : list pt),
+       cW c1 = None ->
+       cP c1 = Some P1 ->
+       WF (kvec (ckv c1)) (cdeg c1) ->
+       length P1 = cnpts c1 ->
+       Forall (fun q : pt => length q = d) P1 ->
+       kremove (ckv c1) [x] = Ok knew ->
+       kdeg knew = cdeg c1 ->
+       limits_eqb (ckv c1) knew = true ->
+       length Q0 = knpts knew ->
+       Forall (fun q : pt => length q = d) Q0 ->
+       (forall u : Q,
+        in_range (kvec (ckv c1)) (cdeg c1) u = true ->
+        Forall2 Qeq (curve_spec (kvec knew) (kdeg knew) d Q0 u) (curve_spec (kvec (ckv c1)) (cdeg c1) d P1 u)) ->
+       forall (t : Q) (T E : mat),
+       0 <= t ->
+       spline2spline (ckv c1) knew (knots_opt knew) = Ok (T, E) ->
+       exists (c2 : curve) (P2 : list pt),
+         c_knot_remove c1 [x] (Some t) = Ok c2 /\
+         (forall f : nat, remove_while (S f) c1 x (Some t) = remove_while f c2 x (Some t)) /\
+         ckv c2 = knew /\ cP c2 = Some P2 /\ Forall2 (Forall2 Qeq) P2 Q0 /\ cW c2 = None.
+Proof. exact remove_while_exact_step. Qed.
+Print Assumptions C14_removable_copy_is_removed_exactly.
+
+Theorem C14_knot_clean_undoes_insertion :
+  forall (q : curve) (Pq : list pt) (d : nat) (x : Q) (k : nat) (c1 : curve) (t : Q) (r : curve),
+       cW q = None ->
+       cP q = Some Pq ->
+       WF (kvec (ckv q)) (cdeg q) ->
+       length Pq = cnpts q ->
+       Forall (fun p : pt => length p = d) Pq ->
+       first_q (kvec (ckv q)) < x < last_q (kvec (ckv q)) ->
+       c_knot_insert q (repeat x k) = Ok c1 ->
+       kdeg (ckv c1) = cdeg q ->
+       certs x k (ckv c1) ->
+       c_knot_clean c1 (Some [x]) t = Ok r ->
+       (exists (c2 : curve) (P2 : list pt),
+          r = remove_while (length (kvec (ckv c1)) - k) c2 x (Some t) /\
+          cW c2 = None /\
+          cP c2 = Some P2 /\
+          Forall2 Qeq (kvec (ckv c2)) (kvec (ckv q)) /\ kdeg (ckv c2) = cdeg q /\ Forall2 (Forall2 Qeq) P2 Pq) /\
+       (count_q x (kvec (ckv r)) <= count_q x (kvec (ckv q)))%nat /\
+       (forall y : Q, ~ y == x -> count_q y (kvec (ckv r)) = count_q y (kvec (ckv q))) /\
+       (exists e : exn, c_knot_remove r [x] (Some t) = Err e).
+Proof. exact knot_clean_undoes_insert. Qed.
+Print Assumptions C14_knot_clean_undoes_insertion.
